@@ -24,7 +24,7 @@ import sys
 import tempfile
 import zlib
 
-from .. import common, docgen, rtfread
+from .. import common, docgen, optdraw, rtfread
 from ..common import sub_rng
 
 RULE = ("unit: each of the 657 names alone, all 657 together, the full table, random lists of 1..8 names with '', "
@@ -36,8 +36,16 @@ RULE = ("unit: each of the 657 names alone, all 657 together, the full table, ra
         "background / border colours in every combination -- alone, beside headers with text, two per section, not "
         "rendered (as_colheader=False), single-section (one page, paged, page_by) and multi-section (nested per section, "
         "flat) --, the page header with its default text, text components that print nothing; about a third of these "
-        "documents have no other colour, most take the colours from a palette of their own; non-trivial = at least one "
-        "non-default colour resolved; distinct by (kind, colour table, references)")
+        "documents have no other colour, most take the colours from a palette of their own; plus documents of both "
+        "classes with EVERY OTHER constructor option drawn on top, over its documented value set: of RTFPage (use_color "
+        "True / False / None, orientation, width, height, margin, nrow, col_width, border_first / border_last over all "
+        "border codes, the three placements) and of every component the document builds (text_format, font size, "
+        "justification, indents, spacing, hyphenation, text_convert, text_indent_reference, border styles / widths, cell "
+        "height / alignment / nrow, col_rel_width, as_colheader, pageby_header, pageby_row, last_row, group_by on distinct "
+        "cells, fig_align / fig_pos / sizes) -- the options are read from the classes' model_fields at run time "
+        "(harness/optdraw.py), so options that are documented but without effect today, or added later, are drawn too; "
+        "a failure on such a document is re-run without each drawn option to name the options it needs; non-trivial = "
+        "at least one non-default colour resolved; distinct by (kind, colour table, references)")
 TRUSTED = [
     "Lean 4.33 kernel; axioms ⊆ {propext, Classical.choice, Quot.sound} (audited per theorem on every run)",
     "Lean compiler for the driver executable (compiled evaluation agrees with kernel reduction)",
@@ -65,7 +73,14 @@ MANIFEST = dict(
          "with the displayed column names (sentinel-named columns) and judged like a header with text; when two "
          "text-less headers of a section print the same name, the k-th occurrence on a page is the k-th header's. "
          "Components that print nothing (title / subline / footnote / source / page footer without text, a text-less "
-         "header under as_colheader=False) only take part in the collection correspondence.",
+         "header under as_colheader=False) only take part in the collection correspondence. The option documents "
+         "(kind …+options) draw every constructor option of the page and the components except the ones the property "
+         "is about (colours, fonts: drawn by C12's own generators) and the structural ones its expectations are built "
+         "on (texts, as_table, page_by with new_page / pageby_row, subline_by; as_colheader beside text-less headers); "
+         "an explicit None for a list-valued text_* attribute is outside the domain (DESIGN 8: refused at encode "
+         "time). evidence: coverage.options lists the options drawn per class and any option no rule could draw. "
+         "The whole-encoder class (second tie) draws the options its serialisation does not transmit to the model "
+         "(RTFPage.use_color, RTFBody.last_row, text_indent_reference, RTFFigure.fig_pos).",
     technique="Lean 4 proof (lists, permutations, stable sort; decide +kernel on the generated table) + differential "
               "correspondence model/implementation + Lean-defined oracle on the implementation's output",
     design="7/C12",
@@ -857,6 +872,103 @@ def gen_doc_auto(rng, names, groups):
     return out
 
 
+# ------------------------------------------------------------------ observation level: every other constructor option
+
+# what C12's generators write themselves (the subject of the property) or build their expectations on
+OWN_ALL = ("text", "text_font", "text_color", "text_background_color", "border_color_*")
+OWN_STRUCT = dict(footnote=("as_table",), source=("as_table",), figure=("figures",),
+                  body=("page_by", "subline_by", "group_by"))
+
+
+def add_options(rng, case, sch, auto):
+    """Every constructor option the generators above leave at its default -- of RTFPage (use_color, orientation, width,
+    height, margin, nrow, col_width, border_first / border_last, the three placements) and of every component the
+    document builds (formats, sizes, justification, indents, spacing, hyphenation, conversion, indent reference, border
+    styles and widths, cell heights / alignment, relative widths, as_colheader, pageby_header, pageby_row, last_row,
+    figure alignment / position / sizes) -- drawn over its documented value set (harness/optdraw.py: the options are
+    read from the classes' model fields at run time, options that are documented but without effect included).  None
+    of them changes which colour or font an element was given, so the expectations of the document stay as they are."""
+    spec, labels = case["spec"], case["counts"]
+    pageby = isinstance(spec.get("body"), dict) and "page_by" in spec["body"]
+    drawn = case.setdefault("options", [])      # [path into the spec, option] of everything drawn here (for shrinking)
+
+    def draw(path, comp, kw, **kwargs):
+        before = set(kw)
+        optdraw.draw_component(rng, sch, comp, kw, labels=labels, **kwargs)
+        drawn.extend([path, k] for k in sorted(set(kw) - before))
+
+    def lines(kw):
+        t = kw.get("text")
+        return len(t) if isinstance(t, list) else 1
+
+    if spec.get("page") is None:
+        spec["page"] = {}
+    draw(["page"], "page", spec["page"], p=0.4)
+    for role in ("title", "subline", "page_header", "page_footer"):
+        if spec.get(role) is not None:
+            draw([role], role, spec[role], p=0.2, owned=OWN_ALL, n=lines(spec[role]))
+    for role in ("footnote", "source"):
+        if spec.get(role) is not None:
+            draw([role], role, spec[role], p=0.15, owned=OWN_ALL + OWN_STRUCT[role], ncols=rng.randint(1, 3))
+    frames = spec.get("df")
+    frames = frames if isinstance(frames, list) else [frames] if frames else []
+    multi = isinstance(spec.get("body"), list)
+    bodies = spec["body"] if multi else [spec["body"]] if spec.get("body") is not None else []
+    for i, (fr, b) in enumerate(zip(frames, bodies)):
+        nc = len(fr["cols"])
+        own = OWN_ALL + OWN_STRUCT["body"]
+        if auto:
+            own += ("as_colheader",)            # decides whether a text-less header is rendered: set by the generator
+        if "page_by" in b:
+            own += ("new_page", "pageby_row", "col_rel_width")
+        draw(["body", i] if multi else ["body"], "body", b, p=0.15, owned=own, n=nc, ncols=nc)
+    if spec["kind"] == "table" and not pageby and not auto and frames and rng.random() < 0.12:
+        # group_by over leading columns: every cell is a distinct sentinel, so nothing is blanked
+        spec["body"]["group_by"] = frames[0]["cols"][:rng.randint(1, min(2, len(frames[0]["cols"])))]
+        labels.append("opt:body.group_by")
+        drawn.append([["body"], "group_by"])
+    hs = spec.get("headers")
+    if isinstance(hs, list):
+        seen = set()
+        for i, x in enumerate(hs):
+            for j, h in enumerate(x if isinstance(x, list) else [x]):
+                if not isinstance(h, dict) or id(h) in seen:
+                    continue
+                seen.add(id(h))
+                t = h.get("text")
+                draw(["headers", i, j] if isinstance(x, list) else ["headers", i], "header", h, p=0.15, owned=OWN_ALL,
+                     n=len(t) if t else 1, ncols=len(t) if t else None)
+    fig = spec.get("figure")
+    if isinstance(fig, dict):
+        for f in ("fig_width", "fig_height"):
+            if rng.random() < 0.5:
+                fig.pop(f, None)
+        draw(["figure"], "figure", fig, p=0.5, owned=OWN_STRUCT["figure"], n=len(fig["files"]))
+    labels.append(f"options_per_doc:{min(len(drawn) // 5 * 5, 30)}+")
+    return case
+
+
+def without_options(spec, drop):
+    """a copy of `spec` without the drawn options `drop` ([path, option] pairs of add_options)"""
+    import copy
+
+    out = copy.deepcopy(spec)
+    for path, k in drop:
+        kw = out
+        for step in path:
+            kw = kw[step]
+        kw.pop(k, None)
+    return out
+
+
+def gen_doc_options(rng, names, groups, sch):
+    """a document of one of the two classes above with every other constructor option drawn on top"""
+    auto = rng.random() >= 0.65
+    base = gen_doc_auto(rng, names, groups) if auto else gen_doc(rng, names, groups)
+    base["kind"] += "+options"
+    return add_options(rng, base, sch, auto)
+
+
 # ------------------------------------------------------------------ observation level: worker (fresh process)
 
 def _dump_doc(doc):
@@ -1124,6 +1236,41 @@ def absent_ok(case):
     return set()
 
 
+def evaluate_docs(cs, hashseed, rgbs_of):
+    """judge generator documents `cs` again (fresh processes, the given hash seed) → one scratch Result per document"""
+    obs = run_in_fresh_processes(cs, [hashseed or "0"] * max(1, min(len(cs), common.NCPU)))
+    out, reqs, keep = [], [], []
+    for c, ob in zip(cs, obs):
+        tmp = common.Result("C12", "quick", 0)
+        out.append(tmp)
+        if ob["status"] != "ok":
+            tmp.disagree(c, f"document did not encode/read back: {ob.get('status')} {ob.get('exc')} {ob.get('msg')}")
+            continue
+        model, oracle, bk = doc_requests(c, ob)
+        reqs += [model, oracle]
+        keep.append((tmp, c, ob, bk))
+    drv = common.driver_batch(reqs) if reqs else []
+    for n, (tmp, c, ob, bk) in enumerate(keep):
+        judge_doc(tmp, c, ob, drv[2 * n], drv[2 * n + 1], bk, rgbs_of)
+    return out
+
+
+def shrink_options(c, hashseed, rgbs_of):
+    """the drawn options a failure needs: every option whose removal alone makes the oracle pass is kept, all others are
+    dropped at once; → (smaller generator document, why) when the oracle still fails on it, else None"""
+    drawn = c.get("options") or []
+    if not drawn:
+        return None
+    rs = evaluate_docs([dict(c, spec=without_options(c["spec"], [d])) for d in drawn], hashseed, rgbs_of)
+    needed = [d for d, r in zip(drawn, rs) if not r.failures]
+    small = dict(c, spec=without_options(c["spec"], [d for d in drawn if d not in needed]), options=needed)
+    r = evaluate_docs([small], hashseed, rgbs_of)[0]
+    if not r.failures:
+        return None
+    names = ", ".join("/".join(map(str, pth)) + "." + k for pth, k in needed) or "none"
+    return small, r.failures[0][1] + f"  [of the {len(drawn)} options drawn on top of the document the failure needs: {names}]"
+
+
 def run_docs(res, tier, names, groups, corpus=()):
     ndocs = 480 if tier == "quick" else 5000
     cases = [dict(c) for c in corpus]
@@ -1131,6 +1278,17 @@ def run_docs(res, tier, names, groups, corpus=()):
         cases.append(gen_doc(sub_rng(res.seed, "c12doc", k), names, groups))
     for k in range(240 if tier == "quick" else 2500):  # components without text of their own
         cases.append(gen_doc_auto(sub_rng(res.seed, "c12auto", k), names, groups))
+    sch = optdraw.schema()                               # (computed in a worker process)
+    for k in range(320 if tier == "quick" else 3000):  # every other constructor option of the page and the components
+        cases.append(gen_doc_options(sub_rng(res.seed, "c12opt", k), names, groups, sch))
+    own = OWN_ALL + tuple(x for v in OWN_STRUCT.values() for x in v)
+    res.extra["options"] = dict(
+        classes={c: len(f) for c, f in sch["classes"].items()},
+        drawn={c: sorted(fn for fn, f in fs.items() if f["values"] is not None) for c, fs in sch["classes"].items()},
+        not_drawn_generically=sorted(u for u in sch["undrawn"] if not optdraw._is_owned(u.split(".", 1)[1], own)),
+        refused_candidates=sch["dropped"],
+        note="options of the component classes read from model_fields at run time (harness/optdraw.py); the colour / "
+             "font options and the structural ones are written by C12's own generators")
     nproc = common.NCPU if tier == "quick" else 4 * common.NCPU
     hrng = sub_rng(res.seed, "c12hash")
     hashseeds = [hrng.randint(1, 4_000_000_000) for _ in range(nproc)]
@@ -1143,6 +1301,8 @@ def run_docs(res, tier, names, groups, corpus=()):
                     border_cols=c["border_cols"], hashseed=ob.get("hashseed"))
         if c.get("occ"):
             case["occ"] = c["occ"]
+        if c.get("options"):
+            case["options"] = c["options"]
         res.count("doc:" + c["kind"])
         res.count(f"doc_colours:{c.get('k', '?')}")
         for lab in c.get("counts", []):
@@ -1157,6 +1317,7 @@ def run_docs(res, tier, names, groups, corpus=()):
         keep.append((case, c, ob, bk))
     drv = common.driver_batch(reqs)
     seen_orders = set()
+    first_opt_failure = None
     for i, (case, c, ob, bk) in enumerate(keep):
         m, o = drv[2 * i], drv[2 * i + 1]
         nt = None
@@ -1167,7 +1328,18 @@ def run_docs(res, tier, names, groups, corpus=()):
             seen_orders.add((tuple(ob["collected"]), tuple(ob["collected_order"])))
             if ob["collected_order"] != ob["collected"]:
                 res.count("doc_set_order_not_sorted")
+        nf = len(res.failures)
         judge_doc(res, case, ob, m, o, bk, rgbs_of)
+        if len(res.failures) > nf and c.get("options") and first_opt_failure is None:
+            first_opt_failure = (nf, case, c)
+    if first_opt_failure is not None:
+        # name the options the failure depends on and put the smaller document first (it becomes the replay)
+        nf, case, c = first_opt_failure
+        sh = shrink_options(c, case.get("hashseed"), rgbs_of)
+        if sh is not None:
+            small, why = sh
+            res.failures.pop(nf)
+            res.failures.insert(0, (dict(case, spec=small["spec"], options=small["options"]), why))
     res.extra["hashseeds_used"] = len(hashseeds)
 
 
@@ -1206,7 +1378,10 @@ def run(res: common.Result, build) -> int:
                     "C12_order_independent hold for every list of colour names (any length, any order); C12_document / "
                     "C12_border_refs lift them to every constructed document on the three encoding paths, for every "
                     "enumeration of the collected set; C12_fonts covers the ten fonts; C12_full_table the no-context "
-                    "route; C12enc_header_cell / C12enc_auto_header_cell: every reference of a column header row, with text "
+                    "route; C12_full_table_only_master / C12_mixed_numbering_wrong: table and indices must use ONE numbering "
+                    "(dense positions read against the full table name other colours; the oracle rejects them); "
+                    "C12enc_same_numbering: the encoder model prints the dense table of the collected colours and resolves "
+                    "every index against that same list, whatever the page options; C12enc_header_cell / C12enc_auto_header_cell: every reference of a column header row, with text "
                     "of its own or filled from the column names. Facts about the 657-row table are decided by the kernel on the table regenerated from /repo.")
 
 
@@ -1226,7 +1401,7 @@ def replay(payload) -> int:
         c = dict(kind=case.get("kind"), spec=case["spec"], want=case["want"],
                  elements=[[e[0], e[1], tuple(e[2]) if isinstance(e[2], list) else e[2]] + list(e[3:])
                            for e in case["elements"]],
-                 border_cols=case.get("border_cols", []), occ=case.get("occ") or {})
+                 border_cols=case.get("border_cols", []), occ=case.get("occ") or {}, options=case.get("options") or [])
         hs = case.get("hashseed") or "0"
         ob = run_in_fresh_processes([c], [hs])[0]
         print("status:", ob["status"], ob.get("exc", ""), ob.get("msg", ""))
